@@ -612,6 +612,42 @@ def r18f(rep, F):
             'a threshold is computed after the average was updated (compares the new average with itself)')
 
 
+def r18g(rep, F):
+    rep.rule('R18g', 'cost convergence, normal form of the update: with w = min(solutions_ + 1, solutionsWindow_) the stored average '
+                     'becomes ((w - 1) * averageCost_ + cost) / w and solutions_ becomes solutions_ + 1 -- a windowed moving average '
+                     '("the average of the last n costs"); weighting by the total number of solutions makes late solutions move the '
+                     'average too little and convergence is declared on a steadily improving sequence')
+    from engine import sym
+    from engine.sym import Poly
+    fn = F.one('ompl::base::CostConvergenceTerminationCondition::processNewSolution')
+    m = sym.Machine(F, sym.Ctx(inline=sym.resolver(F, deny=('terminate', 'log', 'value'))))
+    st = {'env': {}, 'heap': [], 'alias': {}, 'this': ('T',), 'facts': []}
+    cost = ('S', 'cost')
+    st['env'][fn.params[0]['did']] = cost
+    try:
+        m.block(fn, [fn.body], st)
+    except sym.Unsupported as e:
+        raise AnalysisBroken('R18g: processNewSolution outside the normalisable fragment: %s' % e)
+    T = ('T',)
+    rd = lambda f_: Poly.atom(('rd', ('F', T, f_)))
+    sol, win, avg = rd('solutions_'), rd('solutionsWindow_'), rd('averageCost_')
+    c = Poly.atom(('call', 'ompl::base::Cost::value', cost))
+    w = m.app('min', [sol + Poly.const(1), win])
+    want_avg = ((w - Poly.const(1)) * avg + c) * sym.inv(w)
+    got_sol = got_avg = None
+    for k, v, q in st['heap']:
+        if k == ('F', T, 'solutions_'):
+            got_sol = v
+        if k == ('F', T, 'averageCost_'):
+            got_avg = v
+    ok1 = isinstance(got_sol, Poly) and got_sol == sol + Poly.const(1)
+    ok2 = isinstance(got_avg, Poly) and got_avg == want_avg
+    rep.add('R18g', fn.name, 'count', ok1, fn.where(fn.nodes[fn.body]), 'solutions_ + 1' if ok1 else 'solutions_ becomes %s' % (sym.show(got_sol) if got_sol is not None else 'unchanged'))
+    rep.add('R18g', fn.name, 'windowed-average', ok2, fn.where(fn.nodes[fn.body]),
+            '((w-1)*avg + cost)/w with w = min(solutions_+1, window)' if ok2 else
+            'the stored average is %s, not the windowed mean %s' % (sym.show(got_avg)[:200] if got_avg is not None else 'unchanged', sym.show(want_avg)[:160]))
+
+
 def run(rep):
     F = facts.load_units(UNITS)
     rep.units.update(UNITS)
@@ -622,3 +658,4 @@ def run(rep):
     r18d(rep, F)
     r18e(rep, F)
     r18f(rep, F)
+    r18g(rep, F)
